@@ -39,7 +39,7 @@ def run(ctx, only=None):
     ctx.trusted_base = TB
     ctx.assumptions = ['process group not orphaned (probes create one)', 'kernel default dispositions as in details/Kernel.v (probed)',
                        'restore_default succeeds for signals the table knows']
-    if not ctx.harness():
+    if not ctx.harness(["sh_probe"]):
         return
     ctx.translate(COMPONENTS)
     ctx.prove('props/C16.v')
